@@ -15,9 +15,23 @@ def cfg(size):
                          Ops={"sum", "lt"}, Lits={1}) + "INIT BInit\nNEXT BNext\nINVARIANTS Emit\nCHECK_DEADLOCK FALSE\n"
 
 
+def alg_cfg(size, copy, invs):
+    return vf.cfg_consts(MaxSize=size, FreeVars=0, MaxIdx=3, TyFuel=400, CopyHoles=copy, Formers={"type", "int", "bool", "true", "lit", "var", "lam", "pi", "app", "bin", "neg", "if", "let1"},
+                         Ops={"sum", "lt"}, Lits={1}) + "INIT BInit\nNEXT BNext\nINVARIANTS %s\nCHECK_DEADLOCK FALSE\n" % invs
+
+
 def run(c):
     vf.build_harness()
     size = 4 if c.quick else 5
+    # M (design level): the unification ALGORITHM (GramUnifyAlg) against the predicates, on every punched pair.
+    # Intended design (holes are kept when a term is opened): sound.  Code-faithful (OpenS copies unsolved holes): sound
+    # wherever no hole was copied -- the copies themselves are the recorded finding.
+    for copy, invs, name in ((False, "AlgSound AlgReflRed", "unifyalg-design-%d" % size), (True, "AlgSoundModuloCopies AlgReflRed", "unifyalg-code-%d" % size)):
+        sa = vf.tlc_generate("MC_UnifyAlg", alg_cfg(size, copy, invs), name, timeout=6000, workers=14)
+        c.add_tlc(sa, "unification algorithm vs declarative predicates (%s)" % ("intended design" if not copy else "as coded, modulo copied holes"))
+        if sa["violated"]:
+            c.spec_violation(sa, "the unification algorithm of the specification violates the predicates")
+            return
     c.cov["bounds"] = {"host_program_size": size, "hole_shifts": "0..binder depth", "holes_per_pair": "1..2"}
     st = vf.tlc_generate("MC_Punch", cfg(size), "punch-%d" % size, timeout=6000, workers=14)
     c.add_tlc(st, "punched pairs from all well-typed programs <= %d nodes; generation" % size)
